@@ -1,6 +1,7 @@
 #pragma once
 #include <string>
 #include <memory>
+#include <vector>
 
 #include "type.h"
 
@@ -42,6 +43,14 @@ namespace sqf::runtime
         virtual bool do_equals(std::shared_ptr<data> other, bool invariant) const = 0;
 
     public:
+
+        /// <summary>
+        /// Containers (arrays, hashmaps) tell whether they have come to contain
+        /// themselves, directly or through other containers; path holds the
+        /// containers on the way from the root. Everything else contains nothing.
+        /// </summary>
+        /// <returns>True if no recursion is present.</returns>
+        virtual bool recursion_test_(std::vector<const data*>& path) const { return true; }
 
         /// <summary>
         /// Returns the SQF representation of this datatype.
